@@ -1078,3 +1078,36 @@ def resolve_method(mod: Module, cls: str, name: str) -> Optional[str]:
             return f"{c}.{name}"
         todo += [b.id for b in mod.classes[c].bases if isinstance(b, ast.Name)]
     return None
+
+
+def with_private_callees(mod: Module, func: ast.AST, depth: int = 2) -> List[ast.AST]:
+    """[func] + the private helpers (module-level functions / methods of the same class, name starting with '_') it calls, transitively up to `depth`:
+    the unit a rule reads when the code it looks for may have been moved into a helper that cannot be inlined (several returns, used as a context manager)"""
+    qual = mod.qualname_of(func)
+    cls = qual.split(".")[0] if "." in qual and qual.split(".")[0] in mod.classes else None
+    out, todo = [func], [(func, 0)]
+    while todo:
+        f, d = todo.pop()
+        if d >= depth:
+            continue
+        for c in ast.walk(f):
+            if not isinstance(c, ast.Call):
+                continue
+            res = _callee_of(mod, cls, c, qual)
+            if res is not None and res[0].name.startswith("_") and not any(res[0] is x for x in out):
+                out.append(res[0])
+                todo.append((res[0], d + 1))
+    return out
+
+
+def compiled_patterns(mod: Module, funcs: List[ast.AST]) -> List[ast.Call]:
+    """the re.compile(...) calls whose result the functions use: written inside them, or bound to a module-level name they read"""
+    out = []
+    for f in funcs:
+        out += [c for c in ast.walk(f) if isinstance(c, ast.Call) and ast.unparse(c.func) == "re.compile"]
+        used = {n.id for n in ast.walk(f) if isinstance(n, ast.Name) and isinstance(n.ctx, ast.Load)}
+        for nm in sorted(used):
+            v = mod.constants.get(nm)
+            if isinstance(v, ast.Call) and ast.unparse(v.func) == "re.compile" and not any(v is x for x in out):
+                out.append(v)
+    return out
